@@ -32,8 +32,8 @@ FAMILIES = ("add", "short", "addnode", "copyto", "move", "remove", "remove_child
 CHUNK = 30
 
 
-def run_hist(univ, ops, oracles=("index",)):
-    pr, pre, post = mut_c02.hooks(ops)
+def run_hist(univ, ops, oracles=("index",), probe_from=0):
+    pr, pre, post = mut_c02.hooks(ops, probe_from=probe_from)
     r = mut_ex.replay(dict(univ=univ, ops=ops), oracles=oracles, pre=pre, post=post, keep_world=True)
     return pr, r
 
@@ -153,7 +153,7 @@ class Prop:
             alt_terms, alt_obs = [], []
             changed = 0
             for alt in desc["alts"]:
-                pr, r = run_hist(univ, setup + [alt])
+                pr, r = run_hist(univ, setup + [alt], probe_from=max(0, len(setup) - 1))
                 old = pr.obs[len(setup) - 1] if setup else None
                 d = pr.deltas(old, pr.obs[-1])
                 changed += 1 if any(d) else 0
